@@ -79,6 +79,12 @@ def tasks(tier):
         cfg = dict(M=M, alphabet=["ok", "x:T", "r:T"], handler="call", handler_free=True,
                    strat_menu=[0, "nan", -1, 1], strat_free=True, max_unknown=None)
         out.append({"family": "permit-zero-delay", "cfg": cfg, "entry": e, "bound": 0})
+    # attempt_timeout_s (sync: owned executor, async: virtual event loop)
+    for M, pc, at, e in itertools.product([2, 3], [{}, {"T": 1}], [1, 2], Q4):
+        cfg = dict(M=M, per_class=pc, alphabet=["ok", "x:T", "x:U", "r:T"], attempt_timeout=at,
+                   durs=[0, 3], dur_free=True, deadline=6, abort=True, handler="call",
+                   loop=e.startswith("Async"), sleeper_async=e.startswith("Async"), max_unknown=1)
+        out.append({"family": "permit-attempt-timeout", "cfg": cfg, "entry": e, "bound": 1})
     # a handler whose answer does not depend on anything (always DEFER / always ABORT): whatever
     # the delay, no failed attempt may be followed by another one
     for M, e, hm in itertools.product([2, 3], Q4, ["DEFER", "ABORT"]):
